@@ -5,6 +5,8 @@
 import PgmVerif.Proofs.Acyclic
 import PgmVerif.Model.Search
 import Mathlib.Algebra.Order.Field.Rat
+import Mathlib.Tactic.Ring
+import Mathlib.Tactic.Linarith
 namespace PgmVerif
 open Relation
 
@@ -76,7 +78,7 @@ theorem C11_best_is_max (s : ScoreTab) (o : HCOpts) (tabu : List HOp) (g : DG) (
 /-- what being a candidate means for acyclicity -/
 inductive Legal (g : DG) : HOp → Prop
   | add {x y} : x ∈ g.nodes → y ∈ g.nodes → x ≠ y → hasPathG g y x = false → Legal g (.add x y)
-  | rem {x y} : Legal g (.rem x y)
+  | rem {x y} : (x, y) ∈ g.edges → Legal g (.rem x y)
   | flip {x y} : (x, y) ∈ g.edges → hasPathG (removeEdge g (x, y)) x y = false → Legal g (.flip x y)
 
 theorem legal_of_mem (s : ScoreTab) (o : HCOpts) (tabu : List HOp) (g : DG) (p : HOp × Rat)
@@ -109,12 +111,12 @@ theorem legal_of_mem (s : ScoreTab) (o : HCOpts) (tabu : List HOp) (g : DG) (p :
               exact Legal.add hx' hy'' hne (by simpa using hnp)
             · cases hf
     · -- removals
-      obtain ⟨⟨x, y⟩, _, hf⟩ := List.mem_filterMap.mp h
+      obtain ⟨⟨x, y⟩, hxy, hf⟩ := List.mem_filterMap.mp h
       simp only at hf
       split at hf
       · cases hf
       · simp only [Option.some.injEq] at hf
-        rw [← hf]; exact Legal.rem
+        rw [← hf]; exact Legal.rem hxy
   · -- flips
     obtain ⟨⟨x, y⟩, hxy, hf⟩ := List.mem_filterMap.mp h
     simp only at hf
@@ -144,7 +146,7 @@ theorem C11_apply_acyclic (g : DG) (hw : g.WFG) (hac : Acyclic g.edges) (op : HO
       intro hp
       have := hasPathG_complete g hw y x hy hp
       rw [this] at hnp; cases hnp
-  | rem =>
+  | rem _ =>
     refine ⟨?_, acyclic_sub (fun e he => (List.mem_filter.mp he).1) hac, rfl⟩
     intro e he
     exact hw e (List.mem_filter.mp he).1
@@ -217,6 +219,307 @@ theorem C11_loop_stops_below_eps (s : ScoreTab) (o : HCOpts) : ∀ (fuel : Nat) 
         apply C11_loop_stops_below_eps s o fuel
         simp only [List.length_append, List.length_cons, List.length_nil] at h ⊢
         omega
+
+/-! ### fixed / black / white lists -/
+
+/-- what being a candidate means for the edge lists -/
+def ListOk (o : HCOpts) : HOp → Prop
+  | .add x y => o.black.contains (x, y) = false ∧ o.isWhite (x, y) = true
+  | .rem x y => o.fixed.contains (x, y) = false
+  | .flip x y => o.fixed.contains (x, y) = false ∧ o.black.contains (y, x) = false ∧ o.isWhite (y, x) = true
+
+theorem listOk_of_mem (s : ScoreTab) (o : HCOpts) (tabu : List HOp) (g : DG) (p : HOp × Rat)
+    (h : p ∈ legalOps s o tabu g) : ListOk o p.1 := by
+  unfold legalOps at h
+  simp only at h
+  rcases List.mem_append.mp h with h | h
+  · rcases List.mem_append.mp h with h | h
+    · obtain ⟨⟨x, y⟩, _, hf⟩ := List.mem_filterMap.mp h
+      simp only at hf
+      split at hf
+      · cases hf
+      · split at hf
+        · cases hf
+        · split at hf
+          · cases hf
+          · next hcond =>
+            split at hf
+            · simp only [Option.some.injEq] at hf
+              rw [← hf]
+              simp only [Bool.or_eq_true, not_or, Bool.not_eq_true, Bool.not_eq_eq_eq_not, Bool.not_true,
+                Bool.not_false] at hcond
+              exact ⟨hcond.1.2, by simpa using hcond.2⟩
+            · cases hf
+    · obtain ⟨⟨x, y⟩, _, hf⟩ := List.mem_filterMap.mp h
+      simp only at hf
+      split at hf
+      · cases hf
+      · next hcond =>
+        simp only [Option.some.injEq] at hf
+        rw [← hf]
+        simp only [Bool.or_eq_true, not_or, Bool.not_eq_true] at hcond
+        exact hcond.2
+  · obtain ⟨⟨x, y⟩, _, hf⟩ := List.mem_filterMap.mp h
+    simp only at hf
+    split at hf
+    · cases hf
+    · split at hf
+      · cases hf
+      · next hcond =>
+        split at hf
+        · simp only [Option.some.injEq] at hf
+          rw [← hf]
+          simp only [Bool.or_eq_true, not_or, Bool.not_eq_true, Bool.not_eq_eq_eq_not, Bool.not_true,
+            Bool.not_false] at hcond
+          exact ⟨hcond.1.1.2, hcond.1.2, by simpa using hcond.2⟩
+        · cases hf
+
+theorem mem_applyOp (g : DG) (op : HOp) (e : Var × Var) :
+    e ∈ (applyOp g op).edges → e ∈ g.edges ∨
+      (match op with | .add x y => e = (x, y) | .rem _ _ => False | .flip x y => e = (y, x)) := by
+  cases op with
+  | add x y =>
+    intro h
+    rcases List.mem_append.mp h with h | h
+    · exact Or.inl h
+    · exact Or.inr (by simpa using h)
+  | rem x y => intro h; exact Or.inl (List.mem_filter.mp h).1
+  | flip x y =>
+    intro h
+    rcases List.mem_append.mp h with h | h
+    · exact Or.inl (List.mem_filter.mp h).1
+    · exact Or.inr (by simpa using h)
+
+theorem keeps_applyOp (o : HCOpts) (g : DG) (op : HOp) (hl : ListOk o op) (e : Var × Var)
+    (hf : e ∈ o.fixed) (he : e ∈ g.edges) : e ∈ (applyOp g op).edges := by
+  cases op with
+  | add x y => exact List.mem_append_left _ he
+  | rem x y =>
+    refine List.mem_filter.mpr ⟨he, ?_⟩
+    have : e ≠ (x, y) := by
+      intro h; subst h
+      have : o.fixed.contains (x, y) = true := by simpa using hf
+      rw [hl] at this; cases this
+    simpa using this
+  | flip x y =>
+    refine List.mem_append_left _ (List.mem_filter.mpr ⟨he, ?_⟩)
+    have : e ≠ (x, y) := by
+      intro h; subst h
+      have : o.fixed.contains (x, y) = true := by simpa using hf
+      rw [hl.1] at this; cases this
+    simpa using this
+
+/-- **the lists are honoured**: every fixed edge of the start graph is still present, and every
+    edge of the result was in the start graph or is neither black-listed nor outside the white
+    list — for every score table, tabu length, epsilon and iteration bound -/
+theorem C11_hc_lists (s : ScoreTab) (o : HCOpts) : ∀ (fuel : Nat) (st : HCState),
+    (∀ e ∈ o.fixed, e ∈ st.g.edges → e ∈ (hcLoop s o fuel st).g.edges) ∧
+    (∀ e ∈ (hcLoop s o fuel st).g.edges, e ∈ st.g.edges ∨
+        (o.black.contains e = false ∧ o.isWhite e = true))
+  | 0, st => ⟨fun _ _ h => h, fun _ h => Or.inl h⟩
+  | fuel+1, st => by
+    simp only [hcLoop]
+    cases hb : bestOp (legalOps s o st.tabu st.g) with
+    | none => exact ⟨fun _ _ h => h, fun _ h => Or.inl h⟩
+    | some b =>
+      simp only
+      split
+      · exact ⟨fun _ _ h => h, fun _ h => Or.inl h⟩
+      · have hmem := (bestOp_spec _ b hb).1
+        have hl := listOk_of_mem s o st.tabu st.g b hmem
+        obtain ⟨i1, i2⟩ := C11_hc_lists s o fuel
+          { g := applyOp st.g b.1, tabu := tabuPush o.tabuLen st.tabu (tabuEntry b.1),
+            trace := st.trace ++ [(b.1, b.2)], tie := st.tie || hasTie (legalOps s o st.tabu st.g) }
+        constructor
+        · intro e hf he
+          exact i1 e hf (keeps_applyOp o st.g b.1 hl e hf he)
+        · intro e he
+          rcases i2 e he with h | h
+          · rcases mem_applyOp st.g b.1 e h with h' | h'
+            · exact Or.inl h'
+            · right
+              cases hop : b.1 with
+              | add x y => rw [hop] at h' hl; simp only at h'; rw [h']; exact hl
+              | rem x y => rw [hop] at h'; exact absurd h' id
+              | flip x y => rw [hop] at h' hl; simp only at h'; rw [h']; exact ⟨hl.2.1, hl.2.2⟩
+          · exact Or.inr h
+
+/-! ### exact score deltas and monotonicity -/
+
+/-- the score change the search attributes to an operation -/
+def deltaOf (s : ScoreTab) (g : DG) : HOp → Rat
+  | .add x y => s.local y (g.parents y ++ [x]) - s.local y (g.parents y)
+  | .rem x y => s.local y ((g.parents y).filter (· != x)) - s.local y (g.parents y)
+  | .flip x y => s.local x (g.parents x ++ [y]) + s.local y ((g.parents y).filter (· != x))
+      - s.local x (g.parents x) - s.local y (g.parents y)
+
+theorem delta_of_mem (s : ScoreTab) (o : HCOpts) (tabu : List HOp) (g : DG) (p : HOp × Rat)
+    (h : p ∈ legalOps s o tabu g) : p.2 = deltaOf s g p.1 := by
+  unfold legalOps at h
+  simp only at h
+  rcases List.mem_append.mp h with h | h
+  · rcases List.mem_append.mp h with h | h
+    · obtain ⟨⟨x, y⟩, _, hf⟩ := List.mem_filterMap.mp h
+      simp only at hf
+      split at hf
+      · cases hf
+      · split at hf
+        · cases hf
+        · split at hf
+          · cases hf
+          · split at hf
+            · simp only [Option.some.injEq] at hf
+              rw [← hf]; rfl
+            · cases hf
+    · obtain ⟨⟨x, y⟩, _, hf⟩ := List.mem_filterMap.mp h
+      simp only at hf
+      split at hf
+      · cases hf
+      · simp only [Option.some.injEq] at hf
+        rw [← hf]; rfl
+  · obtain ⟨⟨x, y⟩, _, hf⟩ := List.mem_filterMap.mp h
+    simp only at hf
+    split at hf
+    · cases hf
+    · split at hf
+      · cases hf
+      · split at hf
+        · simp only [Option.some.injEq] at hf
+          rw [← hf]; rfl
+        · cases hf
+
+theorem parents_addEdge (g : DG) (x y v : Var) :
+    (addEdge g (x, y)).parents v = g.parents v ++ (if y = v then [x] else []) := by
+  unfold addEdge DG.parents
+  simp only [List.filter_append, List.map_append]
+  congr 1
+  by_cases h : y = v
+  · simp [h]
+  · simp [h]
+
+theorem parents_removeEdge (g : DG) (x y v : Var) :
+    (removeEdge g (x, y)).parents v = if y = v then (g.parents v).filter (· != x) else g.parents v := by
+  unfold removeEdge DG.parents
+  rw [List.filter_filter]
+  by_cases h : y = v
+  · subst h
+    simp only [if_true]
+    rw [List.filter_map, List.filter_filter]
+    congr 1
+    apply List.filter_congr
+    intro e _
+    obtain ⟨a, b⟩ := e
+    rw [Bool.eq_iff_iff]
+    simp only [Function.comp, Bool.and_eq_true, bne_iff_ne, ne_eq, Prod.mk.injEq, beq_iff_eq, not_and]
+    constructor
+    · rintro ⟨h1, h2⟩; exact ⟨fun ha => h2 ha h1, h1⟩
+    · rintro ⟨h1, h2⟩; exact ⟨h2, fun ha _ => h1 ha⟩
+  · simp only [h, if_false]
+    congr 1
+    apply List.filter_congr
+    intro e _
+    obtain ⟨a, b⟩ := e
+    by_cases h2 : b = v
+    · subst h2
+      have : ¬ (a = x ∧ b = y) := fun hh => h hh.2.symm
+      simp [this]
+    · simp [h2]
+
+theorem sum_change_one (l : List Var) (hn : l.Nodup) (y : Var) (hy : y ∈ l) (f f' : Var → Rat)
+    (h : ∀ v, v ≠ y → f' v = f v) : (l.map f').sum = (l.map f).sum + (f' y - f y) := by
+  induction l with
+  | nil => cases hy
+  | cons a l ih =>
+    have hn' := List.nodup_cons.mp hn
+    simp only [List.map_cons, List.sum_cons]
+    by_cases e : a = y
+    · subst e
+      have : l.map f' = l.map f := List.map_congr_left (fun v hv => h v (fun e => hn'.1 (e ▸ hv)))
+      rw [this]; ring
+    · have hy' : y ∈ l := by
+        rcases List.mem_cons.mp hy with h1 | h1
+        · exact absurd h1.symm e
+        · exact h1
+      rw [ih hn'.2 hy', h a e]; ring
+
+theorem totalScore_add (s : ScoreTab) (g : DG) (hn : g.nodes.Nodup) (x y : Var) (hy : y ∈ g.nodes) :
+    totalScore s (addEdge g (x, y)) = totalScore s g + deltaOf s g (.add x y) := by
+  unfold totalScore deltaOf
+  show ((g.nodes).map (fun v => s.local v ((addEdge g (x, y)).parents v))).sum = _
+  rw [sum_change_one g.nodes hn y hy (fun v => s.local v (g.parents v))
+    (fun v => s.local v ((addEdge g (x, y)).parents v))
+    (fun v hv => by simp only [parents_addEdge]; rw [if_neg (fun e => hv e.symm), List.append_nil])]
+  simp only [parents_addEdge, if_true]
+
+theorem totalScore_rem (s : ScoreTab) (g : DG) (hn : g.nodes.Nodup) (x y : Var) (hy : y ∈ g.nodes) :
+    totalScore s (removeEdge g (x, y)) = totalScore s g + deltaOf s g (.rem x y) := by
+  unfold totalScore deltaOf
+  show ((g.nodes).map (fun v => s.local v ((removeEdge g (x, y)).parents v))).sum = _
+  rw [sum_change_one g.nodes hn y hy (fun v => s.local v (g.parents v))
+    (fun v => s.local v ((removeEdge g (x, y)).parents v))
+    (fun v hv => by simp only [parents_removeEdge]; rw [if_neg (fun e => hv e.symm)])]
+  simp only [parents_removeEdge, if_true]
+
+/-- the end points an operation refers to are nodes of the graph (and distinct for a flip) -/
+def EndOk (g : DG) : HOp → Prop
+  | .add _ y => y ∈ g.nodes
+  | .rem _ y => y ∈ g.nodes
+  | .flip x y => x ∈ g.nodes ∧ y ∈ g.nodes ∧ x ≠ y
+
+/-- **reported delta = score(after) − score(before)** for a decomposable score, for every
+    operation (the node list has no duplicates and contains the edge's end points) -/
+theorem C11_delta_exact (s : ScoreTab) (g : DG) (hn : g.nodes.Nodup) (op : HOp) (hend : EndOk g op) :
+    totalScore s (applyOp g op) = totalScore s g + deltaOf s g op := by
+  cases op with
+  | add x y => exact totalScore_add s g hn x y hend
+  | rem x y => exact totalScore_rem s g hn x y hend
+  | flip x y =>
+    obtain ⟨hx, hy, hxy⟩ := hend
+    show totalScore s (addEdge (removeEdge g (x, y)) (y, x)) = _
+    have hn' : (removeEdge g (x, y)).nodes.Nodup := hn
+    rw [totalScore_add s (removeEdge g (x, y)) hn' y x hx, totalScore_rem s g hn x y hy]
+    unfold deltaOf
+    simp only [parents_removeEdge, if_neg (fun e : y = x => hxy e.symm)]
+    ring
+
+/-- **the score never decreases** when epsilon ≥ 0: the result's total score is at least the start
+    graph's, for every decomposable local score -/
+theorem C11_hc_monotone (s : ScoreTab) (o : HCOpts) (heps : 0 ≤ o.eps) : ∀ (fuel : Nat) (st : HCState),
+    st.g.WFG → Acyclic st.g.edges → st.g.nodes.Nodup →
+    totalScore s st.g ≤ totalScore s (hcLoop s o fuel st).g
+  | 0, st, _, _, _ => le_refl _
+  | fuel+1, st, hw, hac, hn => by
+    simp only [hcLoop]
+    cases hb : bestOp (legalOps s o st.tabu st.g) with
+    | none => exact le_refl _
+    | some b =>
+      obtain ⟨op, d⟩ := b
+      simp only
+      split
+      · exact le_refl _
+      · next hnl =>
+        have hmem := (bestOp_spec _ (op, d) hb).1
+        have hl := legal_of_mem s o st.tabu st.g (op, d) hmem
+        obtain ⟨h1, h2, h3⟩ := C11_apply_acyclic st.g hw hac op hl
+        have hd := delta_of_mem s o st.tabu st.g (op, d) hmem
+        have hend : EndOk st.g op := by
+          cases hl with
+          | add _ hy _ _ => exact hy
+          | rem hxy => exact (hw _ hxy).2
+          | @flip x y hxy _ =>
+            refine ⟨(hw _ hxy).1, (hw _ hxy).2, ?_⟩
+            intro e; subst e
+            exact hac x (Relation.TransGen.single hxy)
+        have hexact := C11_delta_exact s st.g hn op hend
+        have ih := C11_hc_monotone s o heps fuel
+          { g := applyOp st.g op, tabu := tabuPush o.tabuLen st.tabu (tabuEntry op),
+            trace := st.trace ++ [(op, d)], tie := st.tie || hasTie (legalOps s o st.tabu st.g) }
+          h1 h2 (by show (applyOp st.g op).nodes.Nodup; rw [h3]; exact hn)
+        have hge : 0 ≤ d := le_trans heps (not_lt.mp hnl)
+        have hd' : d = deltaOf s st.g op := hd
+        calc totalScore s st.g ≤ totalScore s st.g + deltaOf s st.g op := by rw [← hd']; linarith
+          _ = totalScore s (applyOp st.g op) := hexact.symm
+          _ ≤ _ := ih
 
 /-- non-vacuity: the empty start graph meets the hypotheses of `C11_hc_acyclic` -/
 example : (DG.mk [0, 1, 2] []).WFG ∧ Acyclic (DG.mk [0, 1, 2] []).edges :=
